@@ -189,7 +189,7 @@ func runLim(c Case, ctl *sched.Ctl, mon *monitor, wg *sync.WaitGroup) {
 	// connections taken over by handlers (opcode 7), per thread: what Hijack() handed to the handler
 	conns := make([]net.Conn, len(c.Scripts))
 	var cmu sync.Mutex
-	hijack := func(w http.ResponseWriter, tid int) {
+	hijack := func(w http.ResponseWriter, tid, i int) {
 		hj, ok := w.(http.Hijacker)
 		if !ok {
 			return
@@ -198,6 +198,7 @@ func runLim(c Case, ctl *sched.Ctl, mon *monitor, wg *sync.WaitGroup) {
 			cmu.Lock()
 			conns[tid] = conn
 			cmu.Unlock()
+			ctl.Log(tid, "hij", i)
 		}
 	}
 	body := http.HandlerFunc(func(w http.ResponseWriter, r *http.Request) {
@@ -208,20 +209,21 @@ func runLim(c Case, ctl *sched.Ctl, mon *monitor, wg *sync.WaitGroup) {
 		enter(&inside[k], k, "maxconns")
 		ctl.Log(tid, "fs", i)
 		if hj == "0" || hj == "2" || hj == "3" {
-			hijack(w, tid)
+			hijack(w, tid, i)
 		}
 		ctl.Gate(tid, "fn", i)
 		if c.Free {
 			spin(tid + i)
 		}
 		if hj == "1" {
-			hijack(w, tid)
+			hijack(w, tid, i)
 		}
 		if hj == "2" {
 			cmu.Lock()
 			conn := conns[tid]
 			cmu.Unlock()
 			if conn != nil {
+				ctl.Log(tid, "cls", i, int64(tid))
 				conn.Close()
 			}
 		}
@@ -408,6 +410,7 @@ func runLim(c Case, ctl *sched.Ctl, mon *monitor, wg *sync.WaitGroup) {
 					}
 					cmu.Unlock()
 					if conn != nil {
+						ctl.Log(tid, "cls", i, op[1])
 						conn.Close()
 					}
 					r = 1
